@@ -28,7 +28,7 @@ def one(patch):
     finally:
         shutil.rmtree(tmp, ignore_errors=True)
 k = sys.argv[1]
-patches = sorted(glob.glob("/tmp/seed/%s/SEED/*.patch.diff" % k))
+patches = sorted(glob.glob(os.path.join(os.environ.get("SEED_ROOT", "/tmp/seed"), k, "SEED", "*.patch.diff")))
 with ThreadPoolExecutor(max_workers=5) as ex:
     for patch, out in ex.map(one, patches):
         print(os.path.basename(patch), "->", "clean (no alarm)" if not out else "")
